@@ -191,7 +191,7 @@ def run_cases(run, cases):
 
 
 def correspond(run):
-    n = 400 if run.tier == "quick" else 20000
+    n = 1500 if run.tier == "quick" else 20000
     cases = common.load_corpus(PROP)
     for i in range(n):
         c = gen_case(run.rng, tie=(i % 10 == 9))
